@@ -16,7 +16,9 @@ AsyncRunner (properties C05, C06, C19).  No threads, no timing.
   are processed, whether a future was already running when cancel() reaches
   it, cancellation of the runner -- inside a wait, or, for BlockingRunner, an
   interrupt raised inside the k-th executor.submit call before the job is
-  accepted) is taken from a `Sched`, random or enumerated exhaustively.
+  accepted, or an interrupt delivered when the k-th learner.tell of the main
+  loop returns, i.e. inside _process_futures between two iterations) is taken
+  from a `Sched`, random or enumerated exhaustively.
 * Whether a wait belongs to the main loop or to the finally block is decided
   by context (learner.remove_unfinished() was called), not by its arguments;
   the fake waits honour return_when the way a real pool would.
@@ -72,6 +74,9 @@ class RandomSched(Sched):
     def submit_interrupt(self, k):
         return self.rng.random() < self.p_cancel / 2
 
+    def tell_interrupt(self, k):
+        return self.rng.random() < self.p_cancel
+
 
 class ListSched(Sched):
     """Replays a recorded list of structured choices (for --replay and corpus)."""
@@ -102,6 +107,12 @@ class ListSched(Sched):
 
     def submit_interrupt(self, k):
         if self.i < len(self.choices) and self.choices[self.i][0] == "s" and self.choices[self.i][2] == k:
+            self.i += 1
+            return True
+        return False
+
+    def tell_interrupt(self, k):
+        if self.i < len(self.choices) and self.choices[self.i][0] == "t" and self.choices[self.i][2] == k:
             self.i += 1
             return True
         return False
@@ -138,6 +149,9 @@ class EnumSched(Sched):
 
     def submit_interrupt(self, k):
         return self.cancel and bool(self.choose(2, "submit-interrupt"))
+
+    def tell_interrupt(self, k):
+        return self.cancel and bool(self.choose(2, "tell-interrupt"))
 
     def successor(self):
         t = list(self.taken)
@@ -355,6 +369,7 @@ class Ctx:
         self.attempts = {}        # point -> number of evaluations started
         self.evals = []           # (fid or None, x, attempt, "ok"/"err")
         self.goal_calls = 0
+        self.ntells = 0
         self.runner = None
         self.learner = None
         self.ask_answers = []
@@ -442,9 +457,19 @@ class Ctx:
                 ctx.act(("tell", x, y))
             depth[0] += 1
             try:
-                return tell0(x, y)
+                r = tell0(x, y)
             finally:
                 depth[0] -= 1
+            if depth[0] == 0 and ctx.spec["kind"] == "blocking" and ctx.spec.get("allow_cancel") and not ctx.removed \
+                    and ctx.open_ev is not None and ctx.open_ev[0] == "wait":
+                ctx.ntells += 1
+                if ctx.sched.tell_interrupt(ctx.ntells):
+                    # Ctrl-C is delivered when this learner.tell returns: the learner has the value, the rest of
+                    # _process_futures (later done futures of this wait) is not executed
+                    ctx.choices.append(("t", 1, ctx.ntells))
+                    ctx.open_ev = ("waitcancel", ctx.open_ev[1])
+                    raise HarnessInterrupt("interrupt when learner.tell returned")
+            return r
 
         def remove_unfinished():
             if not ctx.removed:
@@ -512,13 +537,14 @@ class Ctx:
             self.first_snap = snap
         else:
             ev = self.open_ev
-            if ev[0] in ("wait", "shutdown"):
+            if ev[0] in ("wait", "shutdown", "waitcancel"):
                 planned = ev[1]
                 seen = []
                 for f in self.result_calls:
                     if f in planned and f not in seen:
                         seen.append(f)
-                order = seen + [f for f in planned if f not in seen]
+                # an interrupted _process_futures: only the futures whose result was taken were processed
+                order = seen + [f for f in planned if f not in seen and ev[0] != "waitcancel"]
                 ev = (ev[0], [(f, self.outcome[f]) for f in order])
             self.steps.append({"ev": ev, "acts": self.acts[self.act_mark:], "snap": snap})
         self.open_ev = None
@@ -899,7 +925,7 @@ def ev_term(ctx, ev):
     if ev[0] == "subcancel":
         return f"(SubmitCancel {C.nat(ev[1])})"
     body = C.lst(C.pair(C.nat(f), _outcome(ctx, o)) for f, o in ev[1])
-    return f"({'Wait' if ev[0] == 'wait' else 'Shutdown'} {body})"
+    return f"({ {'wait': 'Wait', 'shutdown': 'Shutdown', 'waitcancel': 'WaitCancel'}[ev[0]] } {body})"
 
 
 def act_term(ctx, a):
@@ -1020,9 +1046,9 @@ def features(rec: Rec):
     submitted, done = [], set()
     for st in rec.steps:
         ev = st["ev"]
-        if ev[0] in ("wait", "shutdown"):
+        if ev[0] in ("wait", "shutdown", "waitcancel"):
             nfail += sum(1 for _, o in ev[1] if o[0] == "err")
-        if ev[0] == "wait":
+        if ev[0] in ("wait", "waitcancel"):
             multi = multi or len(ev[1]) > 1
             for f, _ in ev[1]:
                 # out of order: an earlier-submitted evaluation is still running when this one completes
@@ -1038,8 +1064,9 @@ def features(rec: Rec):
     return {"multi": multi, "ooo": ooo, "nfail": nfail, "nretry": nretry,
             "outstanding": any(st["snap"]["phase"] == "Stopping" for st in rec.steps),
             "late_result": any(st["ev"][0] == "shutdown" and st["ev"][1] for st in rec.steps),
-            "cancelled": any(st["ev"][0] in ("cancel", "subcancel") for st in rec.steps),
+            "cancelled": any(st["ev"][0] in ("cancel", "subcancel", "waitcancel") for st in rec.steps),
             "submit_interrupt": any(st["ev"][0] == "subcancel" for st in rec.steps),
+            "tell_interrupt": any(st["ev"][0] == "waitcancel" for st in rec.steps),
             "why": (last["why"] or ("?",))[0],
             "exhausted": any(n > rec.spec["retries"] for n in _fail_counts(rec).values())}
 
@@ -1047,7 +1074,7 @@ def features(rec: Rec):
 def _fail_counts(rec):
     cnt = {}
     for st in rec.steps:
-        if st["ev"][0] in ("wait", "shutdown"):
+        if st["ev"][0] in ("wait", "shutdown", "waitcancel"):
             for f, o in st["ev"][1]:
                 if o[0] == "err":
                     k = rec.ctx.P(rec.ctx.sub_point[f])
@@ -1101,6 +1128,7 @@ class Collector:
         st["runs_with_exhausted_point"] += ft["exhausted"]
         st["cancelled_runs"] += ft["cancelled"]
         st["interrupted_inside_submit_runs"] += ft["submit_interrupt"]
+        st["interrupted_when_tell_returned_runs"] = st.get("interrupted_when_tell_returned_runs", 0) + ft["tell_interrupt"]
         slow = bool(rec.spec.get("slow_cancel")) and rec.spec["kind"] == "async_coro"
         st["coroutine_with_async_cleanup_on_cancel_runs"] += slow
         st["coroutine_with_async_cleanup_runs_stopped_with_outstanding"] += slow and bool(rec.ctx.releases)
@@ -1154,7 +1182,7 @@ class Collector:
 
 
 def _ev_summary(ev):
-    if ev[0] in ("wait", "shutdown"):
+    if ev[0] in ("wait", "shutdown", "waitcancel"):
         return [ev[0], [(f, o[0]) for f, o in ev[1]]]
     return list(ev)
 
